@@ -49,7 +49,7 @@ def required_counters(tier):
         "preemptions_injected": 1000,
         "random.schedules": 100,
         "random.switches": 1000,
-        "stress.rounds": 1, "random.schedules_in_copied_contexts": 20,
+        "stress.rounds": 1, "random.schedules_in_copied_contexts": 20, "raw_thread.rounds": 1, "raw_thread.newcomer_threads": 4,
         # (shadow.get_events and windows.* are white-box evidence: they are demanded in run_shard only
         #  when the shadow monitor could attach - a refactored storage module must not make the
         #  black-box arms inconclusive)
@@ -369,7 +369,17 @@ def run_random(rec, seed, shard, tier):
 
             op_block(0)
             op_call(0)
-            copies = [contextvars.copy_context() for _ in wls]
+            if s % 6 == 0:
+                copies = [contextvars.copy_context() for _ in wls]
+            else:
+                # ... or taken while the parent is INSIDE an open scope that has bound axes and a structure (what
+                # `await asyncio.to_thread(...)` does in the middle of a decorated coroutine / a context block):
+                # the worker is another thread, it starts with no bindings of its own
+                with _ANN["CTX"]:
+                    real.check(A(9), _ANN["f_a"])
+                    real.check((1, 2, 3, 4), _ANN["int_tree"])
+                    copies = [contextvars.copy_context() for _ in wls]
+                rec.count("random.schedules_in_contexts_copied_inside_open_scope")
             wls = [(lambda c=c, w=w: c.run(w)) for c, w in zip(copies, wls)]
             rec.count("random.schedules_in_copied_contexts")
         prng = random.Random(f"{seed}/C06/{shard['i']}/{s}/policy")
@@ -440,6 +450,63 @@ def run_stress(rec, seed, shard, tier):
     drain_shadow(rec, {"stress": True})
 
 
+def run_raw_threads(rec, seed, shard, tier):
+    """threads that the `threading` module does not know about (started with `_thread.start_new_thread`, as C
+    extensions and callback threads are) work through their plans while ordinary short-lived threads keep making
+    their FIRST contact with the library: everybody gets the answers of a solo run"""
+    import _thread
+
+    rng = random.Random(f"{seed}/C06/{shard['i']}/raw")
+    names = sorted(ALL)
+    nraw = 4
+    plans = [[(rng.choice(names), rng.randint(0, 3)) for _ in range(60 if tier == "quick" else 400)] for _ in range(nraw)]
+    refresh_fresh()
+    exp = [[ALL[n](k) for n, k in plan] for plan in plans]
+    refresh_fresh()
+    out = [None] * nraw
+    done = [threading.Event() for _ in range(nraw)]
+
+    def raw(i):
+        try:
+            out[i] = [ALL[n](k) for n, k in plans[i]]
+        except BaseException as e:  # noqa
+            out[i] = f"{type(e).__name__}: {e}"
+        finally:
+            done[i].set()
+
+    newcomer_out = []
+
+    def newcomer(k):
+        try:
+            newcomer_out.append((k, op_block(k % 3) == _NEWCOMER_EXP[k % 3]))
+        except BaseException as e:  # noqa
+            newcomer_out.append((k, f"{type(e).__name__}: {e}"))
+
+    _NEWCOMER_EXP = {k: op_block(k) for k in range(3)}
+    for i in range(nraw):
+        _thread.start_new_thread(raw, (i,))
+    k = 0
+    while not all(d.is_set() for d in done) and k < 2000:
+        t = threading.Thread(target=newcomer, args=(k,))
+        t.start()
+        t.join(60)
+        k += 1
+    for d in done:
+        d.wait(600)
+    rec.count("raw_thread.rounds")
+    rec.count("raw_thread.newcomer_threads", k)
+    rec.case(("raw-threads", shard["i"]), nontrivial=True)
+    for i in range(nraw):
+        if out[i] != exp[i]:
+            bad = next((j for j, (g, e) in enumerate(zip(out[i], exp[i])) if g != e), None) if isinstance(out[i], list) else None
+            rec.violation("isolation", {"raw_seed": f"{seed}/C06/{shard['i']}/raw"}, f"a thread started with _thread.start_new_thread deviates from its solo run ({'op #%s %s' % (bad, plans[i][bad]) if bad is not None else out[i]}) while {k} ordinary threads made their first contact with the library", mechanism="raw-thread-deviates")
+            return
+    badn = [x for x in newcomer_out if x[1] is not True]
+    if badn:
+        rec.violation("isolation", {"raw_seed": f"{seed}/C06/{shard['i']}/raw"}, f"a short-lived thread making its first contact deviates: {badn[:2]}", mechanism="newcomer-thread-deviates")
+    drain_shadow(rec, {"raw": True})
+
+
 def measure_windows(rec):
     """evidence: confirm that the catalogued operations really open the windows that
     matter (flatten flag True / '?' label set / context open / rollback) while traced."""
@@ -486,6 +553,8 @@ def run_shard(rec, seed, shard, tier):
     run_random(rec, seed, shard, tier)
     if shard["i"] in (1, 2):
         run_stress(rec, seed, shard, tier)
+    if shard["i"] in (3, 4):
+        run_raw_threads(rec, seed, shard, tier)
     rec.count("shadow.get_events", shadowstore.counters["get_shape"] + shadowstore.counters["get_flat"] + shadowstore.counters["get_path"])
     if att and shadowstore.counters["get_shape"] == 0:
         rec.inconclusive.append("shadow store attached but saw no get_shape_memo event")
